@@ -35,6 +35,10 @@ def fromutcSpec (r : Raw) (t : Int) : Option Int := (offsetAt r t).map (t + ·)
 def pre (r : Raw) (w : Int) : List Int :=
   ((r.types.map (fun tt => w - tt.off)).eraseDups).filter (fun t => fromutcSpec r t == some w)
 
+/-- instant of the first / last transition recorded in the data -/
+def firstTime (r : Raw) : Option Int := r.trans.head?.map (·.1)
+def lastTime (r : Raw) : Option Int := r.trans.getLast?.map (·.1)
+
 /-! ### well-formedness of a transition table -/
 
 /-- amount by which an offset change sets the wall clock back (0 for a forward change) -/
